@@ -30,6 +30,22 @@ C = {
    "root defined on non-empty lists, tree hash = root, root injective (same length: up to Collision; any lengths: up to Collision or an entry being an inner hash of the other tree — no domain separation, stated not hidden), duplicate-last changes the root, odd entry promoted, inclusion proofs reproduce the root and contain the entry; all lengths 1..64, all positions, all single structural edits of short lists."),
  "C18": ("proof", "Lean 4 proof (for every table/horizon; decide over the regenerated table) + conformance execution",
    "checkpoint_enforced / accepts_its_id / no_alternative_history for every table and horizon, hence for the table regenerated from cheating.py (shape facts by decide +kernel); partial: genesis and the recorded blocks of the real network are a conformance test (ids, re-encoding, full validation with the real scrypt in both implementation and model)."),
+ "C08": ("proof", "Lean 4 proof over a relational model of the store (partial: known finding D2) + correspondence with the real SQLite store",
+   "store_roundtrip_partial: for every sequence of flushes of blocks in which parents are flushed no later than children, spent outputs exist, and no transaction id occurs in two written blocks, reading back yields a permutation of exactly the written blocks (ids, headers, transaction contents), in height order, with ids = hashes of encodings; shared_transaction_counterexample proves the full statement false (D2, a known finding). Real BlockStore on a scratch file: random batching into flushes, reopen + read + rebuild after each, shared pending transactions on competing forks."),
+ "C09": ("proof", "Lean 4 proof (case analysis of the handler model, invariant over delivery sequences) + correspondence with a real node and real store",
+   "enter_only_if_valid, accepted_is_stored, relayed_once_if_new_head, redelivery_noop, reject_no_trace, inv_preserved and later_blocks_stored for the model of handle_block_received (in_response_to = 0) with the store's write buffer; sequences of deliveries (valid on any fork, duplicates, orphans, every broken-block class) to a real LocalPeer + ChainManager + BlockStore with greeted/ungreeted peers, digest after every delivery."),
+ "C12": ("proof", "Lean 4 proof (completeness of the validator on the assembler's output; partial: clock corner D5) + correspondence with the real MinerWatcher",
+   "candidate_shape (exact reward subsidy+fees to the miner's key, timestamp after parent), assembled_block_valid_partial (own full validation accepts every assembled block below target, for every chain state and pool satisfying C13's invariant, unless the timestamp is > 30 s ahead: known finding D5, proved as future_head_candidate_rejected), found_block_adopted, invalid_found_block_not_adopted; real MinerWatcher handlers on a real node over forks, pools of 0-8 transactions, clocks around head.ts."),
+ "C13": ("proof", "Lean 4 proof (invariant over all interleavings of submissions and head changes) + correspondence with the real ChainManager",
+   "PoolInv (each pending transaction valid by itself and at the head, references pairwise disjoint) holds in every reachable manager state; admitted only if valid and compatible; refused submissions change nothing; a head change filters the pool in order. Real handle_transaction_received / set_coinstate interleaved with extensions and fork switches."),
+ "C14": ("proof", "Lean 4 proof (partial: oversize D7) + correspondence with the real wallet; signatures checked with python-ecdsa",
+   "spend_shape (exact outputs, owned unspent inputs, disjoint from earlier spends, record updated), failure leaves the wallet unchanged, insufficient_iff, successive_spends_disjoint, spend_valid_partial (passes full transaction validation when signatures verify and the encoding fits in a block — the size hypothesis is forced: known finding D7). Real create_spend_transaction over many output distributions, amounts at every boundary, sequences with failed attempts."),
+ "C15": ("proof", "Lean 4 proof (wallet invariant over operation sequences; file-system model for atomic save) + correspondence + strace of the real save",
+   "load_dump (hex layer), Inv preserved by every operation, handOut_fresh / no_double_handout over every operation sequence incl. save+load, balance_spec, save_atomic (after every prefix of open-truncate / appends / rename, for every chunking, the file is the complete old or new wallet). Real Wallet operations and real save_wallet under strace with a crash simulated after every system call."),
+ "C19": ("proof", "Lean 4 proof (invariants over event sequences) + regenerated is_time_to_connect (translator) + correspondence with the real NetworkManager",
+   "book_disjoint / never_insane for every event sequence, backoff (every attempt at least min(10 s * 2^k, 30 min) after the previous attempt to that address, none beyond the configured failures), ban score semantics, self-connection dropped and never retried, announcements never overwrite, peers file shape and atomic replacement; real LocalPeer / NetworkManager with an in-memory socket factory over random event sequences and a virtual clock, real write_peers."),
+ "C20": ("proof", "Lean 4 proof (case analysis over message kinds and failure points) + correspondence through real sockets and the catch-all",
+   "garbage_contained, raising_message_contained, rejected_block_contained, rejected_transaction_contained, protocol_messages_local: chain state, pool, write buffer, store and every other connection are unchanged and at most the offending connection is closed; the top-level handler is total. Corrupted / truncated / spliced / re-typed / reordered frames of every message type, invalid blocks and transactions, random bytes through recv(1024) and the catch-all with a well-behaved peer connected."),
 }
 ALL = ["C%02d" % i for i in range(1, 21)]
 PENDING = "check under construction in this build phase (model/theorems planned in DESIGN.md); not yet registered"
